@@ -5,7 +5,7 @@ import sys
 ACTS = [("submit","m o se"),("done","q"),("loadDone","r ok"),("timerFire","r"),("explicitUnload","m"),("setPing","r ok"),("setPingBlock","r"),("pingDone","r ok"),
  ("pTake",""),("pDrainUnloaded",""),("pLookup","fit"),("pNeedsReload",""),("pUse",""),("pExpire",""),("pWaitUnload",""),
  ("pLoad","ok"),("cTakeFinished",""),("cFin",""),("cTakeExpired",""),("cExp",""),("cVram",""),("requeue","r"),
- ("delayedRequeue","q"),("finishSend","q"),("timerCb","r"),("unloadRun","r"),("unloadBind","m")]
+ ("delayedRequeue","q"),("finishSend","q"),("timerCb","r"),("unloadRun","r"),("unloadBind","m"),("setPingOpen","r")]
 inv, n = sys.argv[1], int(sys.argv[2])
 variant = sys.argv[3] if len(sys.argv) > 3 and sys.argv[3] != "-" else None
 hints = sys.argv[4] if len(sys.argv) > 4 and sys.argv[4] != "-" else ""
